@@ -84,13 +84,14 @@ class Inconclusive(BaseException):
 
 
 class Entry:
-    __slots__ = ("due", "seq", "payload", "cancelled", "done", "internal")
+    __slots__ = ("due", "seq", "payload", "cancelled", "done", "internal", "owned")
 
     def __init__(self, due, seq, payload, internal=False):
         self.due, self.seq, self.payload = due, seq, payload
         self.cancelled = False
         self.done = False
         self.internal = internal
+        self.owned = None  # entry whose handle this entry's handle owns (the action returned it)
 
 
 class VTModel:
